@@ -3,6 +3,7 @@ package checks
 import (
 	"encoding/json"
 	"fmt"
+	"sync/atomic"
 
 	"github.com/peterstace/simplefeatures/geom"
 	"verif/engine"
@@ -244,6 +245,36 @@ func c02Main(r *engine.Run) {
 		r.Bound(fmt.Sprintf("all %d² ordered pairs of the 6×6 holes family", m))
 	}
 	r.Sample("pair", pairCase{A: hf[0].WKT, B: hf[4].WKT})
+	// chained: results of the set operations (single geometries or collections of pairwise
+	// disjoint members) related to every operand of a reduced alphabet, clearance permitting
+	{
+		parts := 13
+		if r.Thorough() {
+			parts = 29
+		}
+		full := HolesFamily(universe.Identity)
+		var chainA []Operand
+		for _, o := range chainAlphabet(ops, full, parts) {
+			if o.MembersDisjoint {
+				chainA = append(chainA, o)
+			}
+		}
+		var kept atomic.Int64
+		if done, fed := chainResults(r, chainA, func(res Operand) {
+			if res.G.IsGeometryCollection() && !flatDisjoint(flatten([]geom.Geometry{res.G})) {
+				return
+			}
+			for _, c := range chainA {
+				if !arrClearanceOK(oracle.NewPair(res.X, c.X).Arr, magnitude(res.X, c.X)) {
+					continue
+				}
+				kept.Add(1)
+				c02Pair(r, res, c, true)
+			}
+		}); done {
+			r.Bound(fmt.Sprintf("chained: %d results of set operations on pairs of a %d-operand alphabet related to every operand of it (%d pairs kept by the clearance filter)", fed, len(chainA), kept.Load()))
+		}
+	}
 	// star family: MultiLineStrings meeting at one node in every member order
 	star, probes := StarFamily(universe.Identity, level), StarProbes(universe.Identity)
 	done = r.Parallel(len(star), func(i int) {
